@@ -102,6 +102,7 @@ C05_PartsIsPartition == IsGraph => PartsIsPartition(c.n, c.adj)
 C05_ClassIsChainRelation == IsGraph => ClassIsChainRelation(c.n, c.adj)
 C05_ComponentsAreLeast == IsGraph => ComponentsAreLeast(c.n, c.adj)
 C05_ExpectedIsWellFormed == IsGraph => ExpectedIsWellFormed(c.n, c.adj)
+C05_IngroupPassIsExpected == IsGraph => IngroupPassIsExpected(c.n, c.adj)
 Perms(n) == {p \in [Pts(n) -> Pts(n)] : \A i, j \in Pts(n) : i # j => p[i] # p[j]}
 C05_PermutationLaw == IsGraph => \A p \in Perms(c.n) : PermutationLaw(c.n, c.adj, p)
 (* the verdict operator accepts the specified arrays and rejects a merged / split / renumbered variant *)
